@@ -234,7 +234,16 @@ func vstubCmdRun(c *exec.Cmd) error {
 	}
 	vCrashPoint("objdump")
 	if vDumpFails == 1 {
-		return errors.New("exit status 1")
+		// Cmd.Run: "If the command starts but does not complete successfully, the
+		// error is of type *ExitError. Other error types may be returned for other
+		// situations."
+		if vChoice("objdump.error_kind"+strconv.Itoa(vRunCalls), 2) == 0 {
+			return errors.New("exec: \"go\": executable file not found in $PATH")
+		}
+		// exit status 1..127, or -1: ended by a signal (OOM killer, timeout wrapper)
+		code := int(int8(vU8("objdump.exit" + strconv.Itoa(vRunCalls))))
+		vAssume(vOr(code == -1, code >= 1))
+		return &exec.ExitError{ProcessState: vProcState(code)}
 	}
 	return nil
 }
@@ -245,7 +254,8 @@ func vstubCmdRun(c *exec.Cmd) error {
 // must be complete for the binary: hash, newline, the full disassembly.
 // Parameters: samehash (1: second run for the same binary, 0: another one),
 // firstfails (1: disassembler of run 1 fails), crash (1: run 1 may crash),
-// wfail (1: writes of run 1 may fail: Flush takes a prefix and errs, Close errs).
+// wfail (1: writes of run 1 may fail: Flush takes a prefix and errs, Close errs),
+// emptyhash (1 / 2: the hash of run 1 / run 2 is the empty string).
 func H_Objdump() {
 	vFiles = map[string]*vFileState{}
 	vHandles = map[*os.File]*vHandle{}
@@ -264,6 +274,14 @@ func H_Objdump() {
 		vAssume(h1 != h2)
 		d2 = vStr("dump2")
 		vAssume(vIsText(d2))
+	}
+	// emptyhash: one of the runs had a binary whose read failed, for which hashBinary
+	// (H_Hash's lemma) yields a key that is not 64 characters long - the empty string
+	switch vParamInt("emptyhash") {
+	case 1:
+		h1 = ""
+	case 2:
+		h2 = ""
 	}
 
 	// run 1
